@@ -172,6 +172,73 @@ Proof.
   rewrite H2. reflexivity.
 Qed.
 
+(* x[i1, ..., id] with integers only: the scalar the dense index expression selects *)
+Lemma slice_positions_none ix : forall i, existsb is_slice ix = false -> slice_positions i ix = [].
+Proof.
+  induction ix as [|it t IH]; intros i H; [reflexivity|]. simpl in H. apply orb_false_iff in H. destruct H as [H1 H2].
+  simpl. rewrite H1. simpl. apply IH. exact H2.
+Qed.
+Lemma no_slice_nth ix : existsb is_slice ix = false -> forall k, is_slice (nth k ix IEll) = false.
+Proof.
+  induction ix as [|it t IH]; intros H k; [destruct k; reflexivity|]. simpl in H. apply orb_false_iff in H. destruct H as [H1 H2].
+  destruct k; simpl; [exact H1|apply IH; exact H2].
+Qed.
+Lemma dgi_all_int ix : forall ns shp g, dgi ix ns = Some (shp, g) -> existsb is_slice ix = false ->
+  forallb (fun it => negb (is_none it)) ix = true -> length ix = length ns -> shp = [].
+Proof.
+  induction ix as [|it t IH]; intros ns shp g Hd Hs Hn Hl.
+  - destruct ns; [|discriminate]. simpl in Hd. inversion Hd. reflexivity.
+  - simpl in Hs. apply orb_false_iff in Hs. destruct Hs as [Hs1 Hs2]. simpl in Hn. apply andb_true_iff in Hn. destruct Hn as [Hn1 Hn2].
+    destruct it as [z|a b s| |]; try discriminate.
+    destruct ns as [|n nt]; [discriminate|]. simpl in Hd. destruct (norm_int n z); [|discriminate].
+    destruct (dgi t nt) as [[shp' g']|] eqn:E; [|discriminate]. inversion Hd; subst. simpl in Hl. eapply IH; eauto.
+Qed.
+Lemma fullidx_none_kept (x : tt R) : forall i excl idx, nkept i x excl = 0%nat -> fullidx i x excl idx = repeat O (length x).
+Proof.
+  induction x as [|c cs IH]; intros i excl idx H; [reflexivity|]. cbn [nkept] in H. cbn [fullidx length repeat].
+  destruct (keptb i c excl); [simpl in H; lia|]. simpl in H. rewrite IH by exact H. reflexivity.
+Qed.
+Lemma item_fs_no_none ns : forall ix fs, item_fs ns ix = Some fs -> forallb (fun it => negb (is_none it)) ix = true.
+Proof.
+  induction ns as [|n nt IH]; intros [|it t] fs H; simpl in H; try discriminate; [reflexivity|].
+  destruct it as [z|a b s| |]; try discriminate; simpl.
+  - destruct (norm_int n z); [|discriminate]. destruct (item_fs nt t) eqn:E; [|discriminate]. eapply IH; eauto.
+  - destruct (slice_pos n a b s) as [[[? ?] ?]|]; [|discriminate]. destruct (item_fs nt t) eqn:E; [|discriminate]. eapply IH; eauto.
+Qed.
+Lemma item_fs_no_ell ns : forall ix fs, item_fs ns ix = Some fs -> forallb (fun it => negb (is_ell it)) ix = true.
+Proof.
+  induction ns as [|n nt IH]; intros [|it t] fs H; simpl in H; try discriminate; [reflexivity|].
+  destruct it as [z|a b s| |]; try discriminate; simpl.
+  - destruct (norm_int n z); [|discriminate]. destruct (item_fs nt t) eqn:E; [|discriminate]. eapply IH; eauto.
+  - destruct (slice_pos n a b s) as [[[? ?] ?]|]; [|discriminate]. destruct (item_fs nt t) eqn:E; [|discriminate]. eapply IH; eauto.
+Qed.
+
+Theorem getitem_all_int (x : tt R) ix fs shp g :
+  wf x -> item_fs (shape x) ix = Some fs -> dgi ix (shape x) = Some (shp, g) -> existsb is_slice ix = false ->
+  shp = [] /\ getitem_tuple x ix = GS (entry x (g [])).
+Proof.
+  intros Hwf Hf Hd Hs. pose proof Hwf as [Hne Hch].
+  pose proof (item_fs_no_ell _ _ _ Hf) as Hnoell. pose proof (item_fs_no_none _ _ _ Hf) as Hnonone.
+  destruct (no_ell_expand (length x) ix Hnoell) as [He Hfl].
+  destruct (item_fs_length _ _ _ Hf) as [Hlf Hli]. unfold shape in Hlf, Hli. rewrite map_length in Hlf, Hli.
+  assert (Hshp : shp = []).
+  { apply (dgi_all_int ix (shape x) shp g Hd Hs Hnonone). unfold shape. rewrite map_length. exact Hli. }
+  split; [exact Hshp|]. subst shp.
+  unfold getitem_tuple. rewrite Hfl. cbn [length Nat.ltb Nat.leb]. rewrite He.
+  rewrite (gi_loop_int_slice ix x [] 0 [] fs Hf). cbn [rev app]. rewrite (slice_positions_none ix 0%nat Hs).
+  assert (Hm : forall j, (0 <= j < 0 + length ix)%nat -> memb j (@nil nat) = is_slice (nth (j - 0) ix IEll)).
+  { intros j _. rewrite (no_slice_nth ix Hs). reflexivity. }
+  destruct (fullidx_items ix x 0 [] fs [] [] g Hf Hd Hm eq_refl) as [H1 H2]. cbn [length] in H1.
+  assert (Hwr : wf (remaps fs x)) by (apply remaps_wf; [lia|exact Hwf]).
+  destruct (reduce_dims_none_kept (remaps fs x) [] Hwr H1) as [c [Hc1 [Hc2 Hc3]]].
+  destruct (remaps fs x) as [|c0 ct] eqn:Er.
+  { exfalso. destruct Hwr as [Hn _]. congruence. }
+  rewrite <- Er in *. rewrite Hc1. f_equal. rewrite Hc3.
+  rewrite (fullidx_none_kept (remaps fs x) 0%nat [] [] H1) in H2.
+  rewrite remaps_entry by (rewrite ?repeat_length, ?remaps_length; lia).
+  rewrite H2. reflexivity.
+Qed.
+
 (* Ellipsis: a leading or trailing `...` is exactly the tuple with the missing full slices written out, so the composite theorem
    above applies to the expanded tuple *)
 Lemma filter_ell_none (t : list ixitem) : forallb (fun it => negb (is_ell it)) t = true -> filter is_ell t = [].
